@@ -11,7 +11,7 @@ W14 = {"gd": 3, "pgd": 2, "ppa": 2, "operator": 2, "subgradient": 1, "halpern": 
 class C14(Prop):
     id = "C14"
     level = "exploration"
-    RUNS = {"quick": 320, "thorough": 6000}
+    RUNS = {"quick": 640, "thorough": 6000}
     BUDGET = {"quick": 85, "thorough": 900}
     ORACLES = ("O-HEUR", "O-CERT", "O-ATTR", "O-PRIMAL", "C14")
     RULE = ("template models x heuristic in {trace, logdet1..4} x tol in [1e-6, 1e-2] x eig_regularization x transport "
